@@ -79,7 +79,11 @@ def build(targets, jobs=16, timeout=3000):
     with BuildLock():
         rc, out = translate()
         res['log'] += out
-        if rc != 0:
+        # a translation that aborted leaves a gen file that cannot compile; it concerns this property only
+        # if one of its targets depends on that file, which the make below decides (fail-closed either way)
+        aborted = re.findall(r'TRANSLATION-ABORT (\S+?):', out) if rc != 0 else []
+        res['aborted'] = aborted
+        if rc != 0 and not aborted:
             res['translate_ok'] = False
         files = sorted(glob.glob(COQ + '/theories/*.v') + glob.glob(COQ + '/gen/*.v'))
         rel = [os.path.relpath(f, COQ) for f in files]
@@ -89,7 +93,7 @@ def build(targets, jobs=16, timeout=3000):
             rc, out = run(['coq_makefile', '-f', '_CoqProject'] + rel + ['-o', 'Makefile.coq'], cwd=COQ, timeout=300)
             res['log'] += out
             open(stamp, 'w').write(listing)
-        cmd = ['make', '-f', 'Makefile.coq', '-j%d' % jobs] + list(targets)
+        cmd = ['make', '-k', '-f', 'Makefile.coq', '-j%d' % jobs] + list(targets)
         res['cmd'] = 'cd coq && ' + ' '.join(cmd)
         rc, out = run(cmd, cwd=COQ, timeout=timeout)
         res['log'] += out[-20000:]
@@ -97,6 +101,12 @@ def build(targets, jobs=16, timeout=3000):
             res['build_ok'] = False
             m = re.search(r'File "\./([^"]+)", line (\d+)', out)
             res['failed_at'] = '%s:%s' % (m.group(1), m.group(2)) if m else 'unknown'
+            failed_files = set(re.findall(r'File "\./([^"]+)", line \d+', out))
+            if any(('gen/' + a) in failed_files for a in aborted):
+                res['translate_ok'] = False
+            # -k: everything that does not depend on the failing file is built, so that the correspondence can
+            # still evaluate the model (a stale dependent .vo is refused by Coq's checksum test, never used)
+            res['partial'] = True
     return res
 
 
